@@ -631,3 +631,42 @@ func VerifC15_Reorg() {
 	}
 	w.observe()
 }
+
+// ---------------------------------------------------------------------------
+// M6: equalisation of unequal offenders.  Two non-local senders hold different
+// numbers of pending transactions (2..maxA and 1..maxB, nothing queued), the
+// limits are small symbolic values: promoteExecutables enters its first
+// truncation loop (the larger sender is cut down to the smaller one's count)
+// as well as the second.  The invariant - in particular "pending nonce = chain
+// nonce + number of pending transactions" for BOTH senders - must hold after.
+
+func VerifC15_Equalize() {
+	w := c15NewWorld(2, false, true)
+	w.quiet = true
+	pa := 2 + vs.Choice("pendingA", vs.Param("maxA")-1)
+	pb := 1 + vs.Choice("pendingB", vs.Param("maxB"))
+	if vs.Choice("swap", 2) == 1 { // either account may be the bigger one
+		pa, pb = pb, pa
+	}
+	w.fill(w.accts[0], pa, 0, true)
+	w.fill(w.accts[1], pb, 0, true)
+	p0, _ := w.counts()
+	w.pool.promoteExecutables(nil)
+	w.invariant()
+	w.limits(nil)
+	p1, _ := w.counts()
+	if p1 < p0 {
+		vs.Reach("pending-capped")
+	}
+	la, lb := 0, 0
+	if l := w.pool.pending[w.accts[0].addr]; l != nil {
+		la = l.Len()
+	}
+	if l := w.pool.pending[w.accts[1].addr]; l != nil {
+		lb = l.Len()
+	}
+	if p1 < p0 && la == lb && pa != pb {
+		vs.Reach("equalized")
+	}
+	w.observe()
+}
